@@ -154,6 +154,17 @@ Proof. reflexivity. Qed.
 Lemma pd_fold_none g t rec ds : fold_left (pd_step g t rec) ds None = None.
 Proof. induction ds as [|d r IH]; [reflexivity|exact IH]. Qed.
 
+(* the regenerated condition of gc.go:204 says: same parent label.  (This is the lemma that no longer
+   checks when the comparison in publicDependencies is changed.) *)
+Lemma same_rule_spec a b : same_rule a b = true <-> parent a = parent b.
+Proof.
+  unfold same_rule, GcConds.same_rule_cond.
+  destruct (label_eqb_spec (parent a) (parent b)) as [E|N]; split; intros H; congruence.
+Qed.
+
+Lemma same_rule_false a b : same_rule a b = false <-> parent a <> parent b.
+Proof. rewrite <- same_rule_spec. destruct (same_rule a b); split; congruence. Qed.
+
 Lemma pd_fold g t rec : forall ds acc r,
   fold_left (pd_step g t rec) ds (Some acc) = Some r ->
   incl acc r /\
@@ -167,13 +178,14 @@ Proof.
     destruct (IH _ _ H) as [Hi1 Hrest].
     assert (Hacc : incl acc acc1).
     { unfold pd_step in E1. destruct (find_target g d0) as [dt0|]; [|injection E1 as <-; apply incl_refl].
-      destruct (label_eqb (parent (t_label dt0)) (parent (t_label t))).
+      destruct (same_rule (t_label dt0) (t_label t)).
       - destruct (rec dt0); [|discriminate]. injection E1 as <-. apply incl_appl, incl_refl.
       - injection E1 as <-. apply incl_appl, incl_refl. }
     split; [eapply incl_tran; eassumption|].
     intros d dt [<-|Hin] Hf; [|eapply Hrest; eassumption].
     unfold pd_step in E1. rewrite Hf in E1.
-    destruct (label_eqb_spec (parent (t_label dt)) (parent (t_label t))) as [Heq|Hne].
+    destruct (same_rule (t_label dt) (t_label t)) eqn:Esr;
+      [apply same_rule_spec in Esr; rename Esr into Heq|apply same_rule_false in Esr; rename Esr into Hne].
     + split; [intros Hc; contradiction|]. intros _.
       destruct (rec dt) as [rr|]; [|discriminate]. injection E1 as <-.
       exists rr. split; [reflexivity|]. eapply incl_tran; [|exact Hi1]. apply incl_appr, incl_refl.
@@ -194,6 +206,70 @@ Proof.
     destruct (H2 Hp) as [rr [Hrr Hincl]]. apply in_or_app. left. apply Hincl. eapply IH. exact Hrr.
   - apply in_or_app. right. unfold subrepo_dep. rewrite Hs, Hf. left. reflexivity.
 Qed.
+
+(* ... and nothing else: whatever publicDependencies returns, the test is a test of (at any fuel, any
+   depth of nesting).  With public_deps_complete: publicDependencies = test_of, exactly. *)
+Lemma pd_fold_sound g t rec : forall ds acc r,
+  fold_left (pd_step g t rec) ds (Some acc) = Some r ->
+  forall x, In x r ->
+    In x acc \/
+    exists d dt, In d ds /\ find_target g d = Some dt /\
+      ((parent (t_label dt) <> parent (t_label t) /\ x = dt) \/
+       (parent (t_label dt) = parent (t_label t) /\ exists rr, rec dt = Some rr /\ In x rr)).
+Proof.
+  induction ds as [|d0 ds IH]; intros acc r H x Hx; cbn [fold_left] in H.
+  - injection H as <-. left. exact Hx.
+  - destruct (pd_step g t rec (Some acc) d0) as [acc1|] eqn:E1; [|rewrite pd_fold_none in H; discriminate].
+    destruct (IH _ _ H x Hx) as [Hacc1|[d [dt [Hd [Hf Hcase]]]]].
+    + unfold pd_step in E1. destruct (find_target g d0) as [dt0|] eqn:Ef0; [|injection E1 as <-; left; exact Hacc1].
+      destruct (same_rule (t_label dt0) (t_label t)) eqn:Esr.
+      * apply same_rule_spec in Esr. destruct (rec dt0) as [rr|] eqn:Er; [|discriminate]. injection E1 as <-.
+        apply in_app_or in Hacc1. destruct Hacc1 as [Ha|Hr]; [left; exact Ha|].
+        right. exists d0, dt0. split; [left; reflexivity|]. split; [exact Ef0|]. right. split; [exact Esr|].
+        exists rr. split; [exact Er|exact Hr].
+      * apply same_rule_false in Esr. injection E1 as <-.
+        apply in_app_or in Hacc1. destruct Hacc1 as [Ha|[Hr|[]]]; [left; exact Ha|].
+        right. exists d0, dt0. split; [left; reflexivity|]. split; [exact Ef0|]. left. split; [exact Esr|]. symmetry. exact Hr.
+    + right. exists d, dt. split; [right; exact Hd|]. split; [exact Hf|exact Hcase].
+Qed.
+
+Lemma public_deps_sound g : forall f t ds x, public_deps f g t = Some ds -> In x ds -> test_of g t x.
+Proof.
+  induction f as [|f IHf]; intros t ds x Hpd Hx; [discriminate|]. cbn [public_deps] in Hpd.
+  destruct (fold_left (pd_step g t (public_deps f g)) (t_declared t) (Some [])) as [r|] eqn:Er; [|discriminate].
+  injection Hpd as <-. apply in_app_or in Hx. destruct Hx as [Hr|Hs].
+  - destruct (pd_fold_sound _ _ _ _ _ _ Er x Hr) as [[]|[d [dt [Hd [Hf [[Hne ->]|[Heq [rr [Hrr Hin]]]]]]]]].
+    + eapply TO_direct; eassumption.
+    + eapply TO_hidden; [exact Hd|exact Hf|exact Heq|]. eapply IHf; eassumption.
+  - unfold subrepo_dep in Hs. destruct (t_subrepo_target t) as [l|] eqn:El; [|destruct Hs].
+    destruct (find_target g l) as [y|] eqn:Ey; [|destruct Hs]. destruct Hs as [<-|[]].
+    eapply TO_subrepo; eassumption.
+Qed.
+
+Theorem public_deps_exact g f t ds : public_deps f g t = Some ds -> forall x, In x ds <-> test_of g t x.
+Proof.
+  intros Hpd x. split; [apply (public_deps_sound g f t ds x Hpd)|].
+  intros Hto. eapply public_deps_complete; eassumption.
+Qed.
+
+(* a chain of hidden sub-targets of the test's own rule, of ANY length, is looked through *)
+Lemma hidden_chain_test_of g : forall hs t x, hidden_chain g t hs x -> test_of g t x.
+Proof.
+  induction hs as [|h r IH]; intros t x H; cbn [hidden_chain] in H.
+  - destruct H as [d [Hd [Hf Hne]]]. eapply TO_direct; eassumption.
+  - destruct H as [[d [Hd Hf]] [Heq Hrest]]. eapply TO_hidden; [exact Hd|exact Hf|exact Heq|]. apply IH. exact Hrest.
+Qed.
+
+(* publicDependencies finds the far end of such a chain, whatever its length *)
+Lemma hidden_chain_found g f t hs x ds : hidden_chain g t hs x -> public_deps f g t = Some ds -> In x ds.
+Proof. intros Hc. apply public_deps_complete, hidden_chain_test_of with (1 := Hc). Qed.
+
+(* a link that is a hidden sub-target of ANOTHER rule is not looked through: it is returned itself, and
+   what lies behind it only counts when it is reached some other way (public_deps_sound) *)
+Lemma foreign_hidden_is_subject g f t d h ds :
+  In d (t_declared t) -> find_target g d = Some h -> parent (t_label h) <> parent (t_label t) ->
+  public_deps f g t = Some ds -> In h ds.
+Proof. intros Hd Hf Hne. apply public_deps_complete. eapply TO_direct; eassumption. Qed.
 
 (* ---- the phases of targetsToRemove --------------------------------------------------------------- *)
 Section Phases.
@@ -488,6 +564,30 @@ Proof.
     intros HK. apply Hns. eapply kept1_in; eassumption.
   - intros f Hf k t HK Hft Hs. destruct (Hsrcs f Hf) as [_ Hnk]. apply Hnk.
     eapply keep_srcs_In; [eapply kept1_in; eassumption|eassumption|assumption].
+Qed.
+
+(* a test behind a chain (of any length) of hidden sub-targets of its own rule, of a non-test_only target
+   the roots keep, stays - and so do its sources - provided it is its own gc sibling *)
+Theorem chain_test_kept1 g a t hs x :
+  In t (g_targets g) -> t_test t = true -> a_include_tests a = false ->
+  hidden_chain g t hs x -> Kept0 g a (t_label x) -> t_test_only x = false -> Kept1 g a (t_label t).
+Proof.
+  intros Hin Ht Hinc Hc H0 Ho. eapply K1_test; try eassumption. eapply hidden_chain_test_of; eassumption.
+Qed.
+
+Theorem chain_test_not_removed g a rem srcs t hs x :
+  gc g a = Some (rem, srcs) ->
+  In t (g_targets g) -> t_test t = true -> a_include_tests a = false ->
+  hidden_chain g t hs x -> Kept0 g a (t_label x) -> t_test_only x = false ->
+  (forall t', In t' (g_targets g) -> t_label t' = t_label t -> t_label (gc_sibling g t') = t_label t) ->
+  ~ In (t_label t) rem /\
+  (forall t' f, find_target g (t_label t) = Some t' -> In f (t_srcs t') -> ~ In f srcs).
+Proof.
+  intros Hgc Hin Ht Hinc Hc H0 Ho Hsib.
+  pose proof (chain_test_kept1 _ _ _ _ _ Hin Ht Hinc Hc H0 Ho) as HK.
+  destruct (gc_safe_one_round _ _ _ _ Hgc) as [Hrem Hsrcs]. split.
+  - intros Hr. destruct (Hrem _ Hr) as [t' [Hin' [Hl' Hns]]]. apply Hns. rewrite (Hsib t' Hin' Hl'). exact HK.
+  - intros t' f Hf Hs Hfs. exact (Hsrcs f Hfs _ _ HK Hf Hs).
 Qed.
 
 Lemma uses_b_spec t f : uses t f -> uses_b t f = true.
